@@ -67,7 +67,8 @@ pub fn kinds() -> Vec<Kind> {
     v.push(Kind { name: "abac", rt: sv(&["sub", "obj", "act"]), pt: sv(&["sub", "obj", "act"]), g: vec![],
         m: and(and(and(eq(Ex::Attr(b(r(0)), s("Name")), p(0)), Ex::Cmp("gt", b(Ex::Attr(b(r(0)), s("Age"))), b(Ex::LitI(18)))), eq(r(1), p(1))), eq(r(2), p(2))),
         pvals: vec![sv(&["alice", "bob"]), sv(&objs), sv(&acts)], rvals: vec![people.clone(), svals(&objs), svals(&acts)], links: vec![], tbl: vec![] });
-    let paths = ["/data/1", "/data/1/x", "/res/7", "/res", "/other", "/res/7/sub", "/data/é"];
+    // "/data/", "/da" and "/" are exactly the text before the star of a stored pattern (the boundary of the prefix rule)
+    let paths = ["/data/1", "/data/1/x", "/res/7", "/res", "/other", "/res/7/sub", "/data/é", "/data/", "/da", "/"];
     v.push(Kind { name: "keymatch", rt: sv(&["sub", "obj", "act"]), pt: sv(&["sub", "obj", "act"]), g: vec![],
         m: and(and(eq(r(0), p(0)), Ex::Call2(s("keyMatch"), b(r(1)), b(p(1)))), Ex::Call2(s("regexMatch"), b(r(2)), b(p(2)))),
         pvals: vec![sv(&["alice", "bob"]), sv(&["/data/*", "/res/7", "/*", "/da*"]), sv(&["^GET$", "^.*$", "^P.*T$"])],
